@@ -377,6 +377,26 @@ fn k_evaluator_next() {
   }
 }
 
+/// `Evaluator::gen` (twin of the Verus proof): the share point is the FIRST NON-ZERO draw of the supplied random
+/// source - zero draws are skipped however many there are (here: up to 3 leading zeros), never x = 0 - and the
+/// polynomials are evaluated there exactly once.  Symbolic stream (draw d has limbs [vals[d], 0, 0]).
+#[kani::proof]
+#[kani::unwind(6)]
+#[kani::stub(Evaluator::evaluate, stub_evaluate)]
+fn k_gen_nonzero() {
+  let vals: [u64; 5] = kani::any();
+  kani::assume(vals[3] != 0);
+  let mut rng = SeqRng { calls: 0, vals: Some(vals) };
+  let ev = Evaluator { polys: Vec::new(), x: Fp::ZERO };
+  unsafe { EVAL_CALLS = 0; }
+  let sh = ev.gen(&mut rng);
+  let k = if vals[0] != 0 { 0 } else if vals[1] != 0 { 1 } else if vals[2] != 0 { 2 } else { 3 };
+  assert!(eq3(&sh.x.0, &[vals[k], 0, 0]));
+  assert!(sh.x.0[0] != 0);
+  assert!(rng.calls == 3 * (k as u64 + 1));
+  unsafe { assert!(EVAL_CALLS == 1); }
+}
+
 // ---------------------------------------------------------------------------------------------
 // Bounded TWINS of functions Verus proves unboundedly: they decide a function whose changed text is
 // no longer within Verus' reach, and provide concrete counterexamples for Verus failures.
